@@ -201,4 +201,212 @@ theorem NumberOrPercent_form (v : Bytes) (h : Re.matchBytes Gen.patNumberOrPerce
                 refine ⟨c :: pre, by simp, hds, Or.inr ?_⟩
                 rw [hs]
 
+/-! ### ISO8601: the W3C date-time note's shapes -/
+
+/-- every class of `w` lies within the class of `w'` at the same position -/
+def cwordSub (w w' : CWord) : Bool :=
+  w.length == w'.length && (w.zip w').all fun rr => (classRunes rr.1).all fun c => inRanges c rr.2
+
+theorem fits_of_sub : ∀ (s : List Rune) (w w' : CWord), fits s w = true → cwordSub w w' = true → fits s w' = true := by
+  intro s
+  induction s with
+  | nil =>
+    intro w w' hf hs
+    cases w with
+    | nil =>
+      cases w' with
+      | nil => rfl
+      | cons _ _ => simp [cwordSub] at hs
+    | cons _ _ => simp [fits] at hf
+  | cons c cs ih =>
+    intro w w' hf hs
+    cases w with
+    | nil => simp [fits] at hf
+    | cons rs w1 =>
+      cases w' with
+      | nil => simp [cwordSub] at hs
+      | cons rs' w1' =>
+        simp only [fits, Bool.and_eq_true] at hf ⊢
+        simp only [cwordSub, List.length_cons, List.zip_cons_cons, List.all_cons, Bool.and_eq_true, beq_iff_eq,
+          Nat.add_right_cancel_iff] at hs
+        refine ⟨List.all_eq_true.mp hs.2.1 c (mem_classRunes rs c hf.1), ih w1 w1' hf.2 ?_⟩
+        simp only [cwordSub, Bool.and_eq_true, beq_iff_eq]
+        exact ⟨hs.1, hs.2.2⟩
+
+def dg : List (Rune × Rune) := [(48, 57)]
+def ch (c : Rune) : List (Rune × Rune) := [(c, c)]
+
+/-- `YYYY`, `YYYY-MM`, `YYYY-MM-DD`, and `YYYY-MM-DD(T| )hh:mm[:ss][.f{1,6}][Z][(+|-)hh:mm]`, as class words -/
+def isoShapes : List CWord :=
+  let year : CWord := [dg, dg, dg, dg]
+  let month : CWord := year ++ [ch 45, dg, dg]
+  let day : CWord := month ++ [ch 45, dg, dg]
+  let hm : CWord := day ++ [[(32, 32), (84, 84)], dg, dg, ch 58, dg, dg]
+  let secs : List CWord := [[], [ch 58, dg, dg]]
+  let fracs : List CWord := [[]] ++ (List.range 6).map fun n => ch 46 :: List.replicate (n + 1) dg
+  let zs : List CWord := [[], [ch 90]]
+  let tzs : List CWord := [[], [[(43, 43), (45, 45)], dg, dg, ch 58, dg, dg]]
+  [year, month, day] ++
+    secs.flatMap fun a => fracs.flatMap fun b => zs.flatMap fun c => tzs.map fun d => hm ++ a ++ b ++ c ++ d
+
+/-- every class word of the expression lies within one of the shapes -/
+def shapesOK (r : Re) (shapes : List CWord) : Bool :=
+  match cwords r with
+  | some ws => ws.all fun w => shapes.any fun w' => cwordSub w w'
+  | Option.none => false
+
+theorem shape_form (r : Re) (shapes : List CWord) (ha : anchoredBoth r = true) (hf : shapesOK r shapes = true)
+    (v : Bytes) (h : Re.matchBytes r v = true) : ∃ w ∈ shapes, fits (decodeRunes v) w = true := by
+  obtain ⟨p', hm⟩ := (search_anchored r ha (decodeRunes v)).mp h
+  unfold shapesOK at hf
+  split at hf
+  · rename_i ws hws
+    obtain ⟨w, hw, pre, hs, hfit⟩ := cwords_sound hm ws hws
+    simp only [List.append_nil] at hs
+    subst hs
+    obtain ⟨w', hw', hsub⟩ := List.any_eq_true.mp (List.all_eq_true.mp hf w hw)
+    exact ⟨w', hw', fits_of_sub _ w w' hfit hsub⟩
+  · cases hf
+
+set_option maxRecDepth 1000000 in
+/-- **ISO8601**: an accepted value has one of the shapes of the W3C date-time note -/
+theorem ISO8601_form (v : Bytes) (h : Re.matchBytes Gen.patISO8601 v = true) :
+    ∃ w ∈ isoShapes, fits (decodeRunes v) w = true :=
+  shape_form _ _ (by decide) (by decide) v h
+
+example : isoShapes.length = 59 ∧ isoShapes.any (fits (runes b!"2024-02-29T12:30:05.123Z")) = true ∧
+    isoShapes.any (fits (runes b!"2024-02-29T12:30<")) = false := by decide
+
+/-! ### Number -/
+
+/-- a floating-point literal: sign, digits, point, digits, exponent -/
+def NumberForm (s : List Rune) : Prop :=
+  ∃ sign int dot frac exp, s = sign ++ int ++ dot ++ frac ++ exp ∧
+    (sign = [] ∨ sign = [43] ∨ sign = [45]) ∧ int.all isDigitRune = true ∧ (dot = [] ∨ dot = [46]) ∧
+    frac ≠ [] ∧ frac.all isDigitRune = true ∧
+    (exp = [] ∨ ∃ e esign ed, exp = e :: esign ++ ed ∧ (e = 69 ∨ e = 101) ∧ (esign = [] ∨ esign = [43] ∨ esign = [45]) ∧
+      ed ≠ [] ∧ ed.all isDigitRune = true)
+
+theorem sign_of_inRanges (c : Rune) (h : inRanges c [(43, 43), (45, 45)] = true) : [c] = [43] ∨ [c] = [45] := by
+  simp only [inRanges, Bool.or_false, Bool.or_eq_true, Bool.and_eq_true, decide_eq_true_eq] at h
+  rcases h with ⟨h1, h2⟩ | ⟨h1, h2⟩
+  · left; rw [Nat.le_antisymm h2 h1]
+  · right; rw [Nat.le_antisymm h2 h1]
+
+theorem quest_sign {p s p' s'} (h : Matches (.quest (.cls [(43, 43), (45, 45)])) p s p' s') :
+    ∃ sg, s = sg ++ s' ∧ (sg = [] ∨ sg = [43] ∨ sg = [45]) := by
+  cases h with
+  | quest0 => exact ⟨[], rfl, .inl rfl⟩
+  | questS _ _ _ _ _ hc =>
+    cases hc with
+    | cls _ _ c cs hin => exact ⟨[c], rfl, .inr (sign_of_inRanges c hin)⟩
+
+theorem digits_all (l : List Rune) (h : ∀ x ∈ l, inRanges x [(48, 57)] = true) : l.all isDigitRune = true :=
+  List.all_eq_true.mpr fun x hx => digit_of_inRanges x (h x hx)
+
+/-- **Number**: an accepted value is a floating-point literal of that shape -/
+theorem Number_form (v : Bytes) (h : Re.matchBytes Gen.patNumber v = true) : NumberForm (decodeRunes v) := by
+  obtain ⟨p', hm⟩ := (search_anchored Gen.patNumber (by decide) (decodeRunes v)).mp h
+  unfold Gen.patNumber at hm
+  cases hm with
+  | cat _ _ _ _ _ _ _ _ hbot h1 =>
+    cases hbot with
+    | bot _ _ _ =>
+      cases h1 with
+      | cat _ _ _ _ _ s1 _ _ hsign h2 =>
+        obtain ⟨sign, hs0, hsign'⟩ := quest_sign hsign
+        cases h2 with
+        | cat _ _ _ _ _ s2 _ _ hint h3 =>
+          obtain ⟨int, hs1, hint'⟩ := star_cls hint rfl
+          cases h3 with
+          | cat _ _ _ _ _ s3 _ _ hdot h4 =>
+            have hdot' : ∃ dot, s2 = dot ++ s3 ∧ (dot = [] ∨ dot = [46]) := by
+              cases hdot with
+              | quest0 => exact ⟨[], rfl, .inl rfl⟩
+              | questS _ _ _ _ _ hc =>
+                cases hc with
+                | cls _ _ c cs hin =>
+                  refine ⟨[c], rfl, .inr ?_⟩
+                  simp only [inRanges, Bool.or_false, Bool.and_eq_true, decide_eq_true_eq] at hin
+                  rw [Nat.le_antisymm hin.2 hin.1]
+            obtain ⟨dot, hs2, hdot''⟩ := hdot'
+            cases h4 with
+            | cat _ _ _ _ _ s4 _ _ hfrac h5 =>
+              obtain ⟨f0, frest, hs3, hf0, hfrest⟩ := plus_cls hfrac
+              cases h5 with
+              | cat _ _ _ _ _ s5 _ _ hexp heot =>
+                cases heot with
+                | eot _ _ hs5 =>
+                  have hexp' : s4 = [] ∨ ∃ e esign ed, s4 = e :: esign ++ ed ∧ (e = 69 ∨ e = 101) ∧
+                      (esign = [] ∨ esign = [43] ∨ esign = [45]) ∧ ed ≠ [] ∧ ed.all isDigitRune = true := by
+                    cases hexp with
+                    | quest0 => exact .inl rfl
+                    | questS _ _ _ _ _ hc =>
+                      right
+                      cases hc with
+                      | cat _ _ _ _ _ t1 _ _ he hrest =>
+                        cases he with
+                        | cls _ _ e cs hin =>
+                          cases hrest with
+                          | cat _ _ _ _ _ t2 _ _ hes hed =>
+                            obtain ⟨esign, ht1, hes'⟩ := quest_sign hes
+                            obtain ⟨d0, drest, ht2, hd0, hdrest⟩ := plus_cls hed
+                            refine ⟨e, esign, d0 :: drest, ?_, ?_, hes', by simp, ?_⟩
+                            · rw [ht1, ht2]; simp
+                            · simp only [inRanges, Bool.or_false, Bool.or_eq_true, Bool.and_eq_true, decide_eq_true_eq] at hin
+                              rcases hin with ⟨a, b⟩ | ⟨a, b⟩
+                              · left; exact Nat.le_antisymm b a
+                              · right; exact Nat.le_antisymm b a
+                            · simp only [List.all_cons, Bool.and_eq_true]
+                              exact ⟨digit_of_inRanges d0 hd0, digits_all drest hdrest⟩
+                  refine ⟨sign, int, dot, f0 :: frest, s4, ?_, hsign', digits_all int hint', hdot'', by simp, ?_, hexp'⟩
+                  · rw [hs0, hs1, hs2, hs3]; simp
+                  · simp only [List.all_cons, Bool.and_eq_true]
+                    exact ⟨digit_of_inRanges f0 hf0, digits_all frest hfrest⟩
+
+/-! ### the two free-text matchers: their form is their alphabet -/
+
+/-- **SpaceSeparatedTokens**: one or more characters of the class the expression names (white space,
+    letters, numbers, `_`, `-`; the class is the regenerated one and is within `tokensA`) -/
+theorem SpaceSeparatedTokens_form (v : Bytes) (h : Re.matchBytes Gen.patSpaceSeparatedTokens v = true) :
+    ∃ rs, Gen.patSpaceSeparatedTokens = .cat .bot (.cat (.plus (.cls rs)) .eot) ∧ decodeRunes v ≠ [] ∧
+      ∀ c ∈ decodeRunes v, inRanges c rs = true := by
+  obtain ⟨p', hm⟩ := (search_anchored Gen.patSpaceSeparatedTokens (by decide) (decodeRunes v)).mp h
+  unfold Gen.patSpaceSeparatedTokens at hm ⊢
+  refine ⟨_, rfl, ?_⟩
+  cases hm with
+  | cat _ _ _ _ _ _ _ _ hbot hrest =>
+    cases hbot with
+    | bot _ _ _ =>
+      cases hrest with
+      | cat _ _ _ _ _ _ _ _ hplus heot =>
+        cases heot with
+        | eot _ _ _ =>
+          obtain ⟨c, pre, hs, hc, hpre⟩ := plus_cls hplus
+          rw [hs]
+          refine ⟨by simp, ?_⟩
+          intro x hx
+          simp only [List.append_nil, List.mem_cons] at hx
+          rcases hx with rfl | hx
+          · exact hc
+          · exact hpre x hx
+
+/-- **Paragraph**: zero or more characters of the class the expression names -/
+theorem Paragraph_form (v : Bytes) (h : Re.matchBytes Gen.patParagraph v = true) :
+    ∃ rs, Gen.patParagraph = .cat .bot (.cat (.star (.cls rs)) .eot) ∧ ∀ c ∈ decodeRunes v, inRanges c rs = true := by
+  obtain ⟨p', hm⟩ := (search_anchored Gen.patParagraph (by decide) (decodeRunes v)).mp h
+  unfold Gen.patParagraph at hm ⊢
+  refine ⟨_, rfl, ?_⟩
+  cases hm with
+  | cat _ _ _ _ _ _ _ _ hbot hrest =>
+    cases hbot with
+    | bot _ _ _ =>
+      cases hrest with
+      | cat _ _ _ _ _ _ _ _ hstar heot =>
+        cases heot with
+        | eot _ _ _ =>
+          obtain ⟨pre, hs, hpre⟩ := star_cls hstar rfl
+          rw [hs, List.append_nil]
+          exact hpre
+
 end BM.Props
